@@ -27,9 +27,10 @@ import (
 // knownExclusions maps known-finding keys to the generator shape that is
 // excluded by construction while the finding is listed.
 var knownExclusions = map[string]string{
-	"C03/split-over-projected-output-not-forked":        "split-over-projected-output",
-	"C01/runtime-panic:split-over-disabled-call-output": "split-over-disabled-call-output",
-	"C01/typed-map-to-untyped-map-projection-null":      "typed-map-to-untyped-map",
+	"C03/split-over-projected-output-not-forked":          "split-over-projected-output",
+	"C01/runtime-panic:split-over-disabled-call-output":   "split-over-disabled-call-output",
+	"C01/typed-map-to-untyped-map-projection-null":        "typed-map-to-untyped-map",
+	"C16/struct-in-typed-map-position-in-fork-invocation": "struct-to-typed-map",
 }
 
 func semCfg() *mrogen.ProgCfg {
@@ -93,6 +94,9 @@ var (
 	arrayLens     []int
 )
 
+// invocationCheck (C16 c) runs after a completed pipestance.
+var invocationCheck func(t *rapid.T, rc *runCase)
+
 // strictMode: C07 part A - run with the strictest enforcement level and
 // validate every delivered argument against its parameter type.
 var strictMode bool
@@ -142,11 +146,11 @@ func stripAll(vs []any) []any {
 
 // modelIndex groups the model's jobs.
 type modelIndex struct {
-	trueDeps map[string][]string // job key -> producer instances it really depends on
-	byKey   map[string][]*refsem.Job // CallPath|phase -> jobs
-	final   map[string]*refsem.Job   // instance id -> final job (main or join)
-	byInst  map[string][]*refsem.Job
-	callCnt map[string]int
+	trueDeps map[string][]string      // job key -> producer instances it really depends on
+	byKey    map[string][]*refsem.Job // CallPath|phase -> jobs
+	final    map[string]*refsem.Job   // instance id -> final job (main or join)
+	byInst   map[string][]*refsem.Job
+	callCnt  map[string]int
 }
 
 func indexModel(m *refsem.Result) *modelIndex {
@@ -505,6 +509,9 @@ func semCase(t *rapid.T, root string, prog *mrogen.Program) {
 		if ok, d := refsem.EqualSoft(model.Outs, outs, "outs"); !ok {
 			fail(t, "C01", "top-outs-differ", "%s\n  recorded: %s\n  model:    %s\n%s", d, jsonx.Marshal(outs), jsonx.Marshal(refsem.Concretize(model.Outs)), rc.describe())
 		}
+		if invocationCheck != nil {
+			invocationCheck(t, rc)
+		}
 		sim.Cleanup()
 
 		// --- classification
@@ -519,6 +526,10 @@ func semCase(t *rapid.T, root string, prog *mrogen.Program) {
 		digest := stats.Digest(src, strings.Join(rc.history, "|"))
 		sample := func() any {
 			return map[string]any{"program": stats.Trunc(src, 1500), "jobs": njobs, "features": classes, "schedule": stats.Trunc(strings.Join(rc.history, "; "), 600)}
+		}
+		if invocationCheck != nil {
+			stats.Case("C16", c16Checked >= 2, digest, []string{"fork-invocations"}, sample)
+			return
 		}
 		if c11Extra != nil {
 			stats.Case("C11", c11Nontrivial, digest, c11Extra, sample)
